@@ -58,7 +58,7 @@ PROBES = ["switch_inside_mkdir_window", "crash_between_wrapper_cpp_writes", "tor
           "ascii_locale_nonascii_input", "task_restarted", "shared_matlab_outdir",
           "submodule_stem_with_dot_i", "submodule_h_extension", "cwd_is_source_dir",
           "crash_in_open_write_window", "second_run_over_existing_outputs",
-          "mkdir_race_lost_after_isdir_false"]
+          "mkdir_race_lost_after_isdir_false", "xml_store_changed_between_calls"]
 
 
 def batches(tier):
@@ -107,7 +107,7 @@ def _tag(k):
     return "Q%s" % "ABCDEFGHIJKLMNOP"[k]
 
 
-def _xml_for(models, tape):
+def _xml_for(models, tape, salt=""):
     """a simple Doxygen tree documenting the non-templated classes' methods"""
     classes = []
     for m in models:
@@ -119,7 +119,7 @@ def _xml_for(models, tape):
                 if f.tmpl is not None:
                     continue
                 members.append({"name": f.name, "params": [{"name": a.name, "tag": "declname"} for a in f.args],
-                                "brief": "doc of %s::%s(%s)" % (c.qname, f.name, ",".join(a.name for a in f.args)),
+                                "brief": "doc%s of %s::%s(%s)" % (salt, c.qname, f.name, ",".join(a.name for a in f.args)),
                                 "detailed": "details \"quoted\" \\ backslash" if tape.bool(0.3, "xml-det") else None,
                                 "param_docs": None, "returns": None})
             classes.append({"name": c.qname, "refid": DX.refid_for(c.qname), "members": members})
@@ -680,13 +680,15 @@ def gen_history(tape):
         texts.append((p, text, n_ovl))
     mm, mlex, _ = G.generate(tape, "matlab", tag=_tag(9), max_decls=4)
     h["inputs"][src + "/tool.i"] = G.render(mlex, tape).encode("utf-8")
-    for fn, data in _xml_for(models, tape).items():
+    # the XML store exists in two editions (as after re-running Doxygen) and can go missing
+    h["xml_variants"] = [_xml_for(models, tape), _xml_for(models, tape, salt=" (2nd edition)")]
+    for fn, data in h["xml_variants"][0].items():
         h["inputs"]["%s/xml/%s" % (R, fn)] = data
     h["tpl"] = TEMPLATES[tape.weighted([3, 2, 2], "tpl")]
     nops = 2 + tape.small(6, "n-ops", p=0.75)
     nw = 0
     for i in range(nops):
-        choices = [("wrap_file", 5), ("wrap", 2), ("wrap_submodule", 2), ("new", 1.5), ("matlab", 1)]
+        choices = [("wrap_file", 5), ("wrap", 2), ("wrap_submodule", 2), ("new", 1.5), ("matlab", 1), ("xml", 1.2)]
         kind = tape.wpick(choices, "op") if nw else "new"
         if kind == "new":
             h["wrappers"].append({
@@ -701,6 +703,10 @@ def gen_history(tape):
             continue
         if kind == "matlab":
             h["ops"].append({"op": "matlab", "out": "%s/build/tbx%d" % (R, i), "boost": tape.bool(0.2, "boost")})
+            continue
+        if kind == "xml":
+            # the documentation store changes behind the same path: other edition / missing / back
+            h["ops"].append({"op": "xml", "variant": tape.weighted([2, 2, 1], "xml-variant")})
             continue
         wi = tape.choose(nw, "which-wrapper")
         fi = tape.choose(ntext, "which-text")
@@ -720,6 +726,14 @@ def _hist_apply(h, wrappers, op):
     from gtwrap.matlab_wrapper import MatlabWrapper
     from gtwrap.pybind_wrapper import PybindWrapper
     kind = op["op"]
+    if kind == "xml":
+        world = W.WORLD
+        for p in [p for p in world.files if p.startswith(R + "/xml/")]:
+            del world.files[p]
+        if op["variant"] < 2:
+            for fn, data in h["xml_variants"][op["variant"]].items():
+                world.put("%s/xml/%s" % (R, fn), data)
+        return ("ok", None)
     if kind == "new":
         o = h["wrappers"][op["w"]]
         wrappers[op["w"]] = PybindWrapper(module_name=o["module_name"],
@@ -772,6 +786,9 @@ def history_reference(args):
 
     def body(task):
         wrappers = {}
+        for prev in h["ops"][:i]:
+            if prev["op"] == "xml":       # the inputs as they are at this point of the history
+                _hist_apply(h, wrappers, prev)
         if "w" in op and op["op"] != "new":
             _hist_apply(h, wrappers, {"op": "new", "w": op["w"]})
         out["r"] = _hist_apply(h, wrappers, op)
@@ -784,7 +801,7 @@ def run_history(tape, ctx):
     h = gen_history(tape)
     refs = []
     for i, op in enumerate(h["ops"]):
-        if op["op"] == "new":
+        if op["op"] in ("new", "xml"):
             refs.append(("ok", None))
             continue
         r = pool.run_isolated(history_reference, (h, i), 120)
@@ -836,7 +853,9 @@ def run_history(tape, ctx):
     digest = hashlib.sha256(repr((h["ops"], results)).encode()).hexdigest()
     sample = {"ops": h["ops"], "wrappers": h["wrappers"],
               "first_input": h["inputs"][h["texts"][0][0]].decode("utf-8", "replace")[:500]}
-    nreal = sum(1 for o in h["ops"] if o["op"] != "new")
+    nreal = sum(1 for o in h["ops"] if o["op"] not in ("new", "xml"))
+    if any(o["op"] == "xml" for o in h["ops"]):
+        w.probe("xml_store_changed_between_calls")
     return {"violations": viol, "digest": digest, "nontrivial": nreal >= 3,
             "stats": {"history_runs": 1, "history_ops": nreal,
                       "ops_that_raise_consistently": sum(1 for g in results if g[0] == "raise")},
